@@ -405,7 +405,7 @@ impl Script {
                 "transport" => sc.transport = rest.parse().map_err(|_| "bad transport")?,
                 "step" => sc.steps.push(Step::parse(rest)?),
                 // lines written by the driver for human readers; not part of the script
-                "expect" | "violation" | "property" | "build" | "note" => {}
+                "expect" | "violation" | "property" | "build" | "note" | "differential" => {}
                 _ => return Err(format!("unknown line: {line}")),
             }
         }
